@@ -95,6 +95,11 @@ def const_value(n):
         return f(l, r)
     if isinstance(n, ast.Call) and isinstance(n.func, ast.Name) and n.func.id == "float" and len(n.args) == 1:
         return float(const_value(n.args[0]))
+    if isinstance(n, ast.Call) and isinstance(n.func, ast.Name) and n.func.id in ("frozenset", "set", "tuple", "list") and len(n.args) <= 1 and not n.keywords:
+        inner = const_value(n.args[0]) if n.args else ()
+        if isinstance(inner, (dict, str)):
+            raise ValueError("container of a mapping / text")
+        return {"frozenset": frozenset, "set": set, "tuple": tuple, "list": list}[n.func.id](inner)
     if isinstance(n, ast.Call) and isinstance(n.func, ast.Attribute) and n.func.attr == "format":
         base = const_value(n.func.value)
         return base.format(*[const_value(a) for a in n.args])
@@ -184,6 +189,7 @@ class Repo:
         self.inlined_helpers = set()
         self.residual = {}       # qualified name of a known function -> new helpers it still calls after inlining
         self.specialised = []
+        self.keyword_calls_normalised = self._positional_calls()
         if os.environ.get("VERIF_NO_INLINE") != "1":
             self._specialise_dispatch()
             self._inline_new_helpers()
@@ -214,9 +220,12 @@ class Repo:
                     text = fh.read()
             self.sources[rel] = text
             try:
-                self.trees[rel] = _split_tuple_assignments(ast.parse(text, filename=rel))
+                self.trees[rel] = ast.parse(text, filename=rel)
             except SyntaxError as e:
                 raise AnalysisError(f"{rel} does not parse: {e}")
+        self.named_constants = _inline_named_constants(self.trees)
+        for rel in self.trees:
+            self.trees[rel] = _split_tuple_assignments(self.trees[rel])
         for rel in self.json_files:
             text = self.overlay.get(rel)
             if text is None:
@@ -266,6 +275,97 @@ class Repo:
                 fi = FuncInfo(n, prefix + n.name, rel, cls=cls, parent=parent)
                 self.funcs.setdefault(fi.qual, []).append(fi)
                 self._index_nested(n, rel, prefix + n.name + ".", cls, fi)
+
+    def _positional_calls(self):
+        """Load-time normal form: `f(a, y=b)` and `f(a, b)` bind the same parameters - a call to a function / method / constructor of
+        the package whose keywords all name positional parameters is rewritten into the positional form (a skipped parameter in
+        between is filled with its literal default), so that rules reading `call.args[i]` and rules binding by name see one program.
+        The callee is resolved by name: a module-level function or class of that name, or - for `x.m(..)` - every method `m` of the
+        package, which must then agree on the parameter list.  Calls with *args / **kwargs, callees with *varargs and keywords that
+        do not name a positional parameter are left as written.  Returns the number of calls rewritten."""
+        import copy as _c
+        by_name = {}
+        for q, lst in self.funcs.items():
+            for fi in lst:
+                if fi.parent is None:
+                    by_name.setdefault(fi.name, []).append(fi)
+
+        def sig(fi, skip_first):
+            a = fi.node.args
+            if a.vararg is not None:
+                return None
+            pos = [x.arg for x in a.posonlyargs + a.args]
+            dflt = dict(zip(pos[len(pos) - len(a.defaults):], a.defaults)) if a.defaults else {}
+            if skip_first and pos:
+                pos = pos[1:]
+            return pos, dflt, a.kwarg is not None, {x.arg for x in a.kwonlyargs}
+
+        def candidates(call):
+            f = call.func
+            if isinstance(f, ast.Name):
+                cl = self.classes.get(f.id, [])
+                if cl:
+                    out = []
+                    for ci in cl:
+                        init = next((k.methods["__init__"] for k in self.mro(ci) if "__init__" in k.methods), None)
+                        if init is None:
+                            return None
+                        out.append(sig(init, True))
+                    return out
+                fs = [fi for fi in by_name.get(f.id, []) if fi.cls is None]
+                return [sig(fi, False) for fi in fs] or None
+            if isinstance(f, ast.Attribute):
+                fs = [fi for fi in by_name.get(f.attr, []) if fi.cls is not None] + [fi for fi in by_name.get(f.attr, []) if fi.cls is None]
+                if not fs:
+                    return None
+                base_is_class = isinstance(f.value, ast.Name) and f.value.id in self.classes
+                out = []
+                for fi in fs:
+                    if fi.cls is None:
+                        out.append(sig(fi, False))
+                        continue
+                    decs = fi.decorators()
+                    if "staticmethod" in decs:
+                        out.append(sig(fi, False))
+                    elif "classmethod" in decs:
+                        out.append(sig(fi, True))
+                    else:
+                        out.append(sig(fi, not base_is_class))
+                return out
+            return None
+
+        count = 0
+        for rel, tree in self.trees.items():
+            for call in [x for x in ast.walk(tree) if isinstance(x, ast.Call)]:
+                if not call.keywords or any(k.arg is None for k in call.keywords) or any(isinstance(a, ast.Starred) for a in call.args):
+                    continue
+                cands = candidates(call)
+                if not cands or any(c is None for c in cands):
+                    continue
+                first = cands[0]
+                if any(c[0] != first[0] or c[2] != first[2] or c[3] != first[3]
+                       or {k: ast.dump(v) for k, v in c[1].items()} != {k: ast.dump(v) for k, v in first[1].items()} for c in cands[1:]):
+                    continue
+                pos, dflt, has_kwarg, kwonly = first
+                kws = {k.arg: k.value for k in call.keywords}
+                if any(k not in pos for k in kws) or len(call.args) > len(pos) or any(p in kws for p in pos[:len(call.args)]):
+                    continue
+                new_args, left, ok = list(call.args), dict(kws), True
+                for p in pos[len(call.args):]:
+                    if not left:
+                        break
+                    if p in left:
+                        new_args.append(left.pop(p))
+                    elif p in dflt and is_const(dflt[p]):
+                        new_args.append(ast.copy_location(_c.deepcopy(dflt[p]), call))
+                    else:
+                        ok = False
+                        break
+                if ok and not left:
+                    call.args, call.keywords = new_args, []
+                    ast.fix_missing_locations(call)
+                    count += 1
+        return count
 
     def _specialise_dispatch(self):
         """table-driven dispatch (constant tuples / dicts of handlers) is rewritten into the if/elif chain it stands for (sa/pe.py)"""
@@ -437,6 +537,18 @@ class Repo:
                     continue          # a new helper whose body was spliced into its callers
                 yield f
 
+    def is_callable_name(self, finfo, name):
+        """`name` used in finfo denotes a def / class / imported object of finfo's module (never None), not a local or parameter"""
+        locals_ = set(finfo.params) | {x.id for x in ast.walk(finfo.node) if isinstance(x, ast.Name) and isinstance(x.ctx, ast.Store)}
+        if name in locals_:
+            return False
+        for n in self.trees[finfo.module].body:
+            if isinstance(n, (ast.FunctionDef, ast.ClassDef)) and n.name == name:
+                return True
+            if isinstance(n, (ast.Import, ast.ImportFrom)) and any((a.asname or a.name.split(".")[0]) == name for a in n.names):
+                return True
+        return False
+
     def module_consts(self, rel):
         """{name: value expr} of simple module-level assignments NAME = <expr> in module `rel`"""
         out = {}
@@ -464,6 +576,292 @@ class Repo:
         if len(c) != 1:
             raise AnalysisError(f"module {suffix!r}: {len(c)} candidates")
         return c[0], self.trees[c[0]]
+
+
+def _inline_named_constants(trees):
+    """Load-time normal form: a name that is bound exactly once to a closed literal - at module level (`_TOL = 1e-3`, also reached through
+    `from .mod import _TOL`) or in a class body (`class C: TOL = 1e-3`, read as self.TOL / cls.TOL / C.TOL) - and never rebound (no other
+    store, no `global`, no attribute store of that name anywhere in the package) denotes that literal wherever it is read; the reads are
+    replaced by the literal so that `x * 1000` and `x * _WATTS_PER_KILOWATT` are the same program to every rule.  A changed value of such
+    a constant therefore reaches the rules exactly like a changed literal.  Scalars (numbers, text, bool, None) are replaced everywhere;
+    closed tuples / lists / sets / frozensets of scalars at membership tests, iteration sources and constant subscripts.
+    Returns {module: {name: value}} (evidence)."""
+    import copy as _c
+    SCALAR = (int, float, str, bool, type(None), complex)
+
+    def closed(v):
+        return isinstance(v, SCALAR) or (isinstance(v, (tuple, list, set, frozenset)) and all(isinstance(x, SCALAR) or (isinstance(x, tuple) and all(isinstance(y, SCALAR) for y in x)) for x in v))
+
+    def top_level_stmts(body):
+        for n in body:
+            yield n
+            if isinstance(n, (ast.If, ast.Try, ast.With, ast.For, ast.While)):
+                for blk in ("body", "orelse", "finalbody"):
+                    yield from top_level_stmts(getattr(n, blk, []) or [])
+                for h in getattr(n, "handlers", []) or []:
+                    yield from top_level_stmts(h.body)
+
+    def scope_stores(body):
+        """names stored directly in a scope body (module / class), not in nested defs"""
+        cnt = {}
+        for n in top_level_stmts(body):
+            if isinstance(n, (ast.FunctionDef, ast.AsyncFunctionDef, ast.ClassDef)):
+                cnt[n.name] = cnt.get(n.name, 0) + 1
+                continue
+            if isinstance(n, (ast.Import, ast.ImportFrom)):
+                for a in n.names:
+                    nm = a.asname or a.name.split(".")[0]
+                    cnt[nm] = cnt.get(nm, 0) + 1
+                continue
+            stack = [n]
+            while stack:
+                x = stack.pop()
+                if isinstance(x, (ast.FunctionDef, ast.AsyncFunctionDef, ast.ClassDef, ast.Lambda)) and x is not n:
+                    continue
+                if isinstance(x, ast.Name) and isinstance(x.ctx, (ast.Store, ast.Del)):
+                    cnt[x.id] = cnt.get(x.id, 0) + 1
+                if isinstance(x, ast.AugAssign) and isinstance(x.target, ast.Name):
+                    cnt[x.target.id] = cnt.get(x.target.id, 0) + 1
+                stack.extend(ast.iter_child_nodes(x))
+        return cnt
+
+    def subst_known(e, env):
+        class S(ast.NodeTransformer):
+            def visit_Name(self, n):
+                if isinstance(n.ctx, ast.Load) and n.id in env:
+                    return _c.deepcopy(env[n.id][1])
+                return n
+        return S().visit(_c.deepcopy(e))
+
+    # attribute names stored anywhere (self.X = .., obj.X += ..): such a name is state, never a class constant
+    attr_stored = set()
+    globals_declared = {}
+    for rel, tree in trees.items():
+        for x in ast.walk(tree):
+            if isinstance(x, ast.Attribute) and isinstance(x.ctx, (ast.Store, ast.Del)):
+                attr_stored.add(x.attr)
+            elif isinstance(x, ast.Call) and isinstance(x.func, ast.Name) and x.func.id == "setattr" and len(x.args) >= 2:
+                if isinstance(x.args[1], ast.Constant) and isinstance(x.args[1].value, str):
+                    attr_stored.add(x.args[1].value)
+                else:
+                    attr_stored.add("*")
+            elif isinstance(x, (ast.Global, ast.Nonlocal)):
+                globals_declared.setdefault(rel, set()).update(x.names)
+
+    # module-level constants
+    mod = {}
+    for rel, tree in trees.items():
+        cnt = scope_stores(tree.body)
+        env = {}
+        for n in tree.body:
+            tgt = val = None
+            if isinstance(n, ast.Assign) and len(n.targets) == 1 and isinstance(n.targets[0], ast.Name):
+                tgt, val = n.targets[0].id, n.value
+            elif isinstance(n, ast.AnnAssign) and isinstance(n.target, ast.Name) and n.value is not None:
+                tgt, val = n.target.id, n.value
+            if tgt is None or cnt.get(tgt, 0) != 1 or tgt in globals_declared.get(rel, ()) or (tgt.startswith("__") and tgt.endswith("__") and tgt in ("__all__", "__version__", "__author__")):
+                continue
+            try:
+                v = const_value(subst_known(val, env))
+            except (ValueError, TypeError, ZeroDivisionError, KeyError, IndexError):
+                continue
+            if closed(v):
+                env[tgt] = (v, subst_known(val, env))
+        mod[rel] = env
+
+    def resolve_module(rel, level, module):
+        parts = rel.split("/")[:-1]
+        if level:
+            parts = parts[:len(parts) - (level - 1)] if level > 1 else parts
+        else:
+            parts = []
+        if module:
+            parts = parts + module.split(".")
+        for cand in ("/".join(parts) + ".py", "/".join(parts) + "/__init__.py"):
+            if cand in trees:
+                return cand
+        return None
+
+    # constants reached through `from .mod import NAME [as N]` (bound once at module level here, too)
+    imported = {}
+    for rel, tree in trees.items():
+        cnt = scope_stores(tree.body)
+        env = {}
+        for n in tree.body:
+            if isinstance(n, ast.ImportFrom):
+                src_rel = resolve_module(rel, n.level, n.module)
+                if src_rel is None:
+                    continue
+                for a in n.names:
+                    nm = a.asname or a.name
+                    if a.name in mod.get(src_rel, {}) and cnt.get(nm, 0) == 1 and nm not in globals_declared.get(rel, ()):
+                        env[nm] = mod[src_rel][a.name]
+        imported[rel] = env
+
+    # class-level constants: one literal binding in a class body, the attribute name never stored anywhere, and every class body that
+    # binds the name binds the same value (so `self.NAME` means that value whatever the dynamic class is)
+    cls_vals = {}
+    for rel, tree in trees.items():
+        for c in ast.walk(tree):
+            if not isinstance(c, ast.ClassDef):
+                continue
+            cnt = scope_stores(c.body)
+            for n in c.body:
+                tgt = val = None
+                if isinstance(n, ast.Assign) and len(n.targets) == 1 and isinstance(n.targets[0], ast.Name):
+                    tgt, val = n.targets[0].id, n.value
+                elif isinstance(n, ast.AnnAssign) and isinstance(n.target, ast.Name) and n.value is not None:
+                    tgt, val = n.target.id, n.value
+                if tgt is None:
+                    continue
+                ok = cnt.get(tgt, 0) == 1 and tgt not in attr_stored and "*" not in attr_stored
+                v = None
+                if ok:
+                    try:
+                        v = const_value(subst_known(val, {**mod.get(rel, {}), **imported.get(rel, {})}))
+                        ok = isinstance(v, SCALAR)
+                    except (ValueError, TypeError, ZeroDivisionError, KeyError, IndexError):
+                        ok = False
+                cls_vals.setdefault(tgt, []).append((ok, v, c.name, val))
+    cls_const = {}
+    for nm, lst in cls_vals.items():
+        if all(ok for ok, *_ in lst) and len({(type(v).__name__, repr(v)) for _, v, *_ in lst}) == 1:
+            cls_const[nm] = (lst[0][1], {c for _, _, c, _ in lst})
+    class_names = {c.name for tree in trees.values() for c in ast.walk(tree) if isinstance(c, ast.ClassDef)}
+
+    report = {}
+    for rel, tree in trees.items():
+        env0 = {**mod.get(rel, {}), **imported.get(rel, {})}
+        used = report.setdefault(rel, {})
+
+        def lit(v, at):
+            if isinstance(v, SCALAR):
+                if isinstance(v, (int, float)) and not isinstance(v, bool) and v < 0:
+                    node = ast.UnaryOp(op=ast.USub(), operand=ast.Constant(value=-v))
+                else:
+                    node = ast.Constant(value=v)
+            else:
+                node = None
+            return ast.fix_missing_locations(ast.copy_location(node, at)) if node is not None else None
+
+        class R(ast.NodeTransformer):
+            def __init__(self):
+                self.shadow = [set()]
+                self.container_ok = False
+
+            def _scope(self, n, names):
+                self.shadow.append(self.shadow[-1] | names)
+                try:
+                    return self.generic_visit(n)
+                finally:
+                    self.shadow.pop()
+
+            def visit_FunctionDef(self, n):
+                a = n.args
+                # decorators and defaults are evaluated in the enclosing scope
+                n.decorator_list = [self.visit(d) for d in n.decorator_list]
+                a.defaults = [self.visit(d) for d in a.defaults]
+                a.kw_defaults = [self.visit(d) if d is not None else None for d in a.kw_defaults]
+                names = {x.arg for x in a.posonlyargs + a.args + a.kwonlyargs}
+                if a.vararg:
+                    names.add(a.vararg.arg)
+                if a.kwarg:
+                    names.add(a.kwarg.arg)
+                stack = list(n.body)
+                while stack:
+                    x = stack.pop()
+                    if isinstance(x, (ast.FunctionDef, ast.AsyncFunctionDef, ast.ClassDef)):
+                        names.add(x.name)
+                        continue
+                    if isinstance(x, ast.Lambda):
+                        continue
+                    if isinstance(x, ast.Name) and isinstance(x.ctx, (ast.Store, ast.Del)):
+                        names.add(x.id)
+                    if isinstance(x, (ast.Import, ast.ImportFrom)):
+                        for al in x.names:
+                            names.add(al.asname or al.name.split(".")[0])
+                    stack.extend(ast.iter_child_nodes(x))
+                self.shadow.append(self.shadow[-1] | names)
+                try:
+                    n.body = [self.visit(st) for st in n.body]
+                finally:
+                    self.shadow.pop()
+                return n
+            visit_AsyncFunctionDef = visit_FunctionDef
+
+            def visit_Lambda(self, n):
+                a = n.args
+                names = {x.arg for x in a.posonlyargs + a.args + a.kwonlyargs} | ({a.vararg.arg} if a.vararg else set()) | ({a.kwarg.arg} if a.kwarg else set())
+                return self._scope(n, names)
+
+            def visit_ClassDef(self, n):
+                # names bound in the class body shadow inside the body statements only (not inside methods); the constants themselves
+                # keep their defining statement
+                return self.generic_visit(n)
+
+            def visit_Name(self, n):
+                if isinstance(n.ctx, ast.Load) and n.id in env0 and n.id not in self.shadow[-1]:
+                    v, node = env0[n.id]
+                    if isinstance(v, SCALAR):
+                        used[n.id] = repr(v)
+                        return lit(v, n)
+                    if self.container_ok:
+                        used[n.id] = repr(v)[:60]
+                        return ast.fix_missing_locations(ast.copy_location(_c.deepcopy(node), n))
+                return n
+
+            def _container(self, e):
+                old, self.container_ok = self.container_ok, True
+                try:
+                    return self.visit(e) if isinstance(e, ast.Name) else e
+                finally:
+                    self.container_ok = old
+
+            def visit_Compare(self, n):
+                n = self.generic_visit(n)
+                n.comparators = [self._container(c) if isinstance(op, (ast.In, ast.NotIn)) else c for op, c in zip(n.ops, n.comparators)]
+                return n
+
+            def visit_For(self, n):
+                n = self.generic_visit(n)
+                n.iter = self._container(n.iter)
+                return n
+
+            def visit_comprehension(self, n):
+                n = self.generic_visit(n)
+                n.iter = self._container(n.iter)
+                return n
+
+            def visit_Subscript(self, n):
+                n = self.generic_visit(n)
+                if isinstance(n.ctx, ast.Load) and isinstance(n.slice, ast.Constant):
+                    n.value = self._container(n.value)
+                return n
+
+            def visit_Attribute(self, n):
+                n = self.generic_visit(n)
+                if isinstance(n.ctx, ast.Load) and n.attr in cls_const:
+                    b = n.value
+                    base_ok = (isinstance(b, ast.Name) and (b.id in ("self", "cls") or b.id in cls_const[n.attr][1] or b.id in class_names)) \
+                        or (isinstance(b, ast.Call) and isinstance(b.func, ast.Name) and b.func.id == "type" and len(b.args) == 1 and isinstance(b.args[0], ast.Name) and b.args[0].id == "self") \
+                        or (isinstance(b, ast.Attribute) and b.attr == "__class__" and isinstance(b.value, ast.Name) and b.value.id == "self")
+                    if base_ok:
+                        used[f".{n.attr}"] = repr(cls_const[n.attr][0])
+                        return lit(cls_const[n.attr][0], n)
+                return n
+
+            def visit_Assign(self, n):
+                # the defining statement itself keeps its right-hand side as written
+                if len(n.targets) == 1 and isinstance(n.targets[0], ast.Name) and n.targets[0].id in env0 and len(self.shadow) == 1:
+                    return n
+                return self.generic_visit(n)
+
+            def visit_AnnAssign(self, n):
+                if isinstance(n.target, ast.Name) and n.target.id in env0 and len(self.shadow) == 1:
+                    return n
+                return self.generic_visit(n)
+        trees[rel] = R().visit(tree)
+    return {k: v for k, v in report.items() if v}
 
 
 def _split_tuple_assignments(tree):
@@ -564,6 +962,16 @@ def _split_tuple_assignments(tree):
             un = self._unroll_literal_comprehension(n)
             if un is not None:
                 return un
+            # `a, *rest = G`  ->  `__s = list(G); a = __s[0]; rest = __s[1:]`   (head/tail split written as positions of one list)
+            if len(n.targets) == 1 and isinstance(n.targets[0], (ast.Tuple, ast.List)) and len(n.targets[0].elts) == 2 \
+                    and isinstance(n.targets[0].elts[0], ast.Name) and isinstance(n.targets[0].elts[1], ast.Starred) \
+                    and isinstance(n.targets[0].elts[1].value, ast.Name):
+                tmp = f"__s{getattr(n, 'lineno', 0)}"
+                ld = lambda: ast.Name(id=tmp, ctx=ast.Load())
+                out = [ast.Assign(targets=[ast.Name(id=tmp, ctx=ast.Store())], value=ast.Call(func=ast.Name(id="list", ctx=ast.Load()), args=[n.value], keywords=[]), type_comment=None),
+                       ast.Assign(targets=[n.targets[0].elts[0]], value=ast.Subscript(value=ld(), slice=ast.Constant(value=0), ctx=ast.Load()), type_comment=None),
+                       ast.Assign(targets=[n.targets[0].elts[1].value], value=ast.Subscript(value=ld(), slice=ast.Slice(lower=ast.Constant(value=1), upper=None, step=None), ctx=ast.Load()), type_comment=None)]
+                return [ast.fix_missing_locations(ast.copy_location(o, n)) for o in out]
             # `obj.attr, acc = f(..)`  ->  `__u, acc = f(..); obj.attr = __u`   (each store gets a statement of its own)
             if len(n.targets) == 1 and isinstance(n.targets[0], ast.Tuple) and isinstance(n.value, ast.Call) \
                     and any(isinstance(t, (ast.Attribute, ast.Subscript)) for t in n.targets[0].elts) \
